@@ -1,10 +1,17 @@
 """C03 — parse trees are well-formed and indentation markers balance."""
-from harness import corpus
+import json
+import os
+
+from harness import core, corpus, gen_indentflow
 
 LEVEL = "proof"
-COQ_TARGETS = ["theories/Properties/C03.vo"]
-PROPERTY_FILES = ["theories/Properties/C03.v"]
-RULE = ("end-to-end on real parse trees: fixtures of every bundled dialect + token-level mutations (incl. unbalanced brackets, truncation); per "
+GENERATORS = [gen_indentflow.generate]
+COQ_TARGETS = ["theories/Properties/C03.vo", "generated/Gen_indent_all.vo"]
+PROPERTY_FILES = ["theories/Properties/C03.v", "generated/Gen_indent_all.v"]
+RULE = ("STATIC, complete over the bundled dialects: every dialect's grammar objects are translated on every run to an indent-flow abstraction "
+        "(harness/gen_indentflow.py) and a kernel-checked certificate per dialect x 64 valuations of the indentation-config keys decides that every "
+        "complete derivation from the root has net indent 0 (C03_indent_certificate_sound); dialects for which it cannot be established are "
+        "compared with the committed expectations (indentflow_expectations.json). DYNAMIC, end-to-end on real parse trees: fixtures of every bundled dialect + token-level mutations (incl. unbalanced brackets, truncation); per "
         "node: templated span = first child start .. last child stop, source span = hull of children, children in non-decreasing templated "
         "order, no node other than file/unparsable begins or ends with a non-code non-meta segment; over leaves: running indent balance >= 0 and "
         "0 at the end. The theorem (Coq) covers span/order for every tree MatchResult.apply can build from a certified result; C02's check ties "
@@ -14,7 +21,32 @@ ASSUMPTIONS = ["PositionMarker.from_child_markers is the hull of the children (o
 TRUSTED_BASE = ["hand model Model/MatchResult.v (tied to the code by C02's correspondence)", "harness/treecheck.py tree walker"]
 
 
+def static_balance(ctx):
+    dump = getattr(ctx, "indent_dump", None)
+    if dump is None:
+        dump, failures = gen_indentflow.generate()
+    exp = json.load(open(os.path.join(core.VERIF, "indentflow_expectations.json")))
+    nb = 0
+    for name, info in sorted(dump.items()):
+        ctx.case(("static", name), bucket="static:%s" % ("balanced" if info["balanced"] else "not-established"))
+        ctx.programs += 1
+        if info["balanced"]:
+            nb += 1
+            continue
+        a = gen_indentflow.analyse(name)
+        local = sorted(n for i, (n, t) in a["defs"].items() if gen_indentflow.nets(t, {}, frozenset()) != {0})
+        e = exp.get(name)
+        if e and e.get("local") == local and e.get("status") == "inconclusive":
+            ctx.count("static:inconclusive-as-recorded:%s" % name)
+            continue
+        ctx.violation("grammar-indent-unbalanced", "dialect %s: indent markers of the grammar do not balance statically; locally unbalanced definitions: %s" % (name, ", ".join(local)),
+                      {"input": {"dialect": name, "locally_unbalanced": local, "fixpoint_nonzero": info["culprits"]}}, attrs={"dialect": name, "local": ",".join(local)})
+    ctx.coverage_extra["dialects_statically_balanced"] = nb
+    ctx.coverage_extra["dialects_translated"] = len(dump)
+
+
 def run(ctx, coq_ok):
+    static_balance(ctx)
     rng = ctx.rng
     per = 4 if ctx.tier == "quick" else 30
     muts = 3 if ctx.tier == "quick" else 5
